@@ -26,6 +26,21 @@ type RandomOpts struct {
 	// Tag, when set, selects the compilable flavour used as extra corpus for the
 	// codec engines: Go packages under internal/verifsim/rnd/<Tag>p<k>.
 	Tag string
+	// LegacyPaths: now and then two of the Go packages get the old and the new
+	// import path of a module that was renamed at some point (gogo/protobuf ->
+	// cosmos/gogoproto, ...), with the same base name, and a third package
+	// imports both. Requests only (nothing of it is compiled).
+	LegacyPaths bool
+}
+
+// pairs of Go import paths: a module before and after it was moved or renamed
+var legacyPairs = [][2]string{
+	{"github.com/gogo/protobuf/types", "github.com/cosmos/gogoproto/types"},
+	{"github.com/gogo/protobuf/gogoproto", "github.com/cosmos/gogoproto/gogoproto"},
+	{"github.com/golang/protobuf/ptypes/any", "google.golang.org/protobuf/types/known/anypb"},
+	{"github.com/regen-network/cosmos-proto", "github.com/cosmos/cosmos-proto"},
+	{"github.com/tendermint/tendermint/proto/tendermint/types", "github.com/cometbft/cometbft/proto/tendermint/types"},
+	{"github.com/cosmos/cosmos-sdk/types", "cosmossdk.io/types"},
 }
 
 const RndGoPrefix = "github.com/cosmos/cosmos-proto/internal/verifsim/rnd/"
@@ -57,6 +72,7 @@ var enumNamePool = []string{"Kind", "Status", "Mode"}
 
 type randomGen struct {
 	baseNames []string        // per package: base name of its Go import path (nil: pkgN)
+	goPaths   []string        // per package: the whole Go import path (nil: see baseNames)
 	forceImports bool         // every file imports all earlier files
 	filePkg []int             // package index of every file
 	usedTop map[string]bool // proto package + "." + name
@@ -77,6 +93,22 @@ func RandomSet(t *simhook.Tape, opts RandomOpts) []*descriptorpb.FileDescriptorP
 		for i := 0; i < nPkgs; i++ {
 			g.baseNames = append(g.baseNames, []string{"v1beta1", "v1", "types"}[t.Draw("rs.basename", 3)])
 		}
+	}
+	if opts.Tag == "" && opts.LegacyPaths && t.Chance("rs.legacy", 1, 5) {
+		pair := legacyPairs[t.Draw("rs.legacypair", len(legacyPairs))]
+		g.goPaths = []string{pair[0], pair[1], "example.com/rnd/app"}
+		if t.Chance("rs.legacyswap", 1, 2) {
+			g.goPaths[0], g.goPaths[1] = pair[1], pair[0]
+		}
+		g.baseNames = nil
+		g.forceImports = true
+		g.genFile(0, 0)
+		g.genFile(1, 1)
+		nSib := 1 + t.Draw("rs.siblings", 2)
+		for i := 0; i < nSib; i++ {
+			g.genFile(2+i, 2)
+		}
+		return g.files
 	}
 	if opts.Tag == "" && t.Chance("rs.diamond", 1, 4) {
 		// two dependency packages whose import paths share their base name, and
@@ -151,6 +183,9 @@ func (g *randomGen) genFile(idx, pkg int) {
 		// (.../mod0/v1beta1, .../mod1/v1beta1): protogen then has to invent
 		// import aliases per output file
 		fd.Options.GoPackage = proto.String(fmt.Sprintf("example.com/rnd/mod%d/%s", pkg, g.baseNames[pkg]))
+	}
+	if g.opts.Tag == "" && g.goPaths != nil {
+		fd.Options.GoPackage = proto.String(g.goPaths[pkg])
 	}
 	if g.opts.Tag != "" {
 		pkgName = fmt.Sprintf("rnd.%s.pkg%d", g.opts.Tag, pkg)
@@ -327,7 +362,7 @@ func (g *randomGen) fillMsg(b *msgBuilder, file, depth int, proto2 bool) {
 			g.enums = append(g.enums, renum{b.full + "." + name, file})
 		}
 	}
-	nf := 1 + t.Draw("rs.fields", 6)
+	nf := t.Draw("rs.fields", 7) // now and then a message without fields
 	var synth []*descriptorpb.FieldDescriptorProto
 	defer func() {
 		for _, f := range synth {
